@@ -155,11 +155,15 @@ for _pid in ("C05", "C06"):
     REGISTRY[_pid]["standins"] = {"quick": {"bounded: generated robot definitions through the real _create_components: declaration order of components (base classes first), setup() once after all injection": [PY, "native/replay_c08.py"]}}
 REGISTRY["C14"] = {"modules": _ROBOT_MODS, "verify_modules": ["selector", "robot"], "level": "proof",
                    "level_text": "Lifecycle half: contracts of run/start/periodic/disable/_on_autonomous_enable/_on_iteration with a typestate ghost per mode: the chosen mode (dashboard string if it names a mode, else the chooser) "
-                                 "gets on_enable once, one on_iteration(t) per loop iteration with non-decreasing t, on_disable once; no other mode is touched. Discovery half (__init__): see level_note.",
-                   "level_note": _ROBOT_NOTE + " The discovery loop of AutonomousModeSelector.__init__ (importlib/glob/inspect reflection) is not under contract; it is covered by a bounded native stand-in only.",
+                                 "gets on_enable once, one on_iteration(t) per loop iteration with non-decreasing t, on_disable once; no other mode is touched. "
+                                 "Discovery half: AutonomousModeSelector.__init__ verified statement by statement (contracts/seldisc.py): module files listed once (D0), only classes with MODE_NAME and not DISABLED instantiated, "
+                                 "exactly once per visit (D1/D2), created instances offered and healthy modes never lost (D3), duplicates / failing imports / failing constructors / several defaults raise exactly when no FMS is attached (D4/F1/F2), "
+                                 "chooser options and DEFAULT preselection (O1/O2).",
+                   "level_note": _ROBOT_NOTE + " Discovery: importlib / glob / os.path / inspect.getmembers / set() / sorted() / SendableChooser are assumed contracts (interpreter, OS and wpilib semantics); they are exercised for real by the bounded native stand-in.",
                    "design_ref": "DESIGN.md section 5 C14",
                    "replay": [PY, "native/replay_c14.py"],
-                   "standins": {"quick": {"bounded (the ONLY coverage of the discovery half): generated packages on disk, real imports - discovery, duplicates, defaults, failing imports/constructors, FMS on/off, start/periodic/disable lifecycle": [PY, "native/replay_c14.py"]}}}
+                   "standins": {"quick": {"bounded: generated packages on disk, real imports - discovery, duplicates, defaults, failing imports/constructors, FMS on/off, start/periodic/disable lifecycle": [PY, "native/replay_c14.py"]}}}
+REGISTRY["C14"]["module_groups"] = [_ROBOT_MODS, ["seldisc"]]
 REGISTRY["C11"]["module_groups"] = [_ROBOT_MODS, ["tunable"]]
 REGISTRY["C11"]["standins"] = {"quick": {"bounded: real collect_feedbacks + real ntcore: keys (explicit / get_ prefix removed), topic types from return hints, published values": [PY, "native/replay_c09.py"]}}
 REGISTRY["C10"]["module_groups"] = [_ROBOT_MODS, ["reset"]]
